@@ -36,6 +36,8 @@ type Obligation struct {
 	Result  *SolveResult
 	witness *Clause
 	raw     string // complete query text (lemmas)
+	results []Val  // result values at the return this clause obligation belongs to (replay)
+	post    *State // state at that return
 	Inherited bool // the obligation carries the function-level property list (no tag of its own)
 	exclude map[*Obligation]bool // batch members: their own assumption lines are left out
 }
@@ -147,6 +149,9 @@ type FnVC struct {
 	siteN   int
 	elemLocs map[string]bool
 	frameCPs []*frameCP
+	paramVals []Val // entry values of the parameters (receiver first)
+	retVals   []Val // results at the return whose clauses are being generated
+	retState  *State
 	reachAnd map[string][]string // path condition -> path conditions it is a strengthening of
 	reachOr  map[string][]string // merged path condition -> its disjuncts
 	oblIDs   map[string]int
